@@ -37,7 +37,7 @@ def lexLe : List Int → List Int → Bool
 
 def sortCells (cs : List Cell) : List Cell := cs.mergeSort lexLe
 
-def fmtCells (cs : List Cell) : String := " ".intercalate ((sortCells cs).map commaI)
+def fmtCells (cs : List Cell) : String := String.join ((sortCells cs).map fun c => " " ++ commaI c)
 
 def okRange (vs : List Int) : Bool := vs.all fun v => decide (0 ≤ v) && decide (v < nodeLimit)
 
@@ -48,7 +48,7 @@ def dump (st : St) : String :=
     let x := xyzOf st.xyz (gv.2 : Int)
     s!"{gv.2}:{gv.1}:{fmtF x.x}:{fmtF x.y}:{fmtF x.z}"
   s!"nodes {s.n} | {" ".intercalate nodes} | unused {fmtInts s.unusedStk.reverse} | {s.oldN} {s.newN} | " ++
-  s!"tet {fmtCells st.m.g.tet} | tri {fmtCells st.m.g.tri} | edg {fmtCells st.m.g.edg}"
+  s!"tet{fmtCells st.m.g.tet} | tri{fmtCells st.m.g.tri} | edg{fmtCells st.m.g.edg}"
 
 /-- harness guard for `tet/tri/edg`: all vertices are valid slots and pairwise distinct -/
 def cellOk (st : St) (ns : List Int) : Bool :=
@@ -86,6 +86,7 @@ def step (st : St) (line : String) : St × String :=
   | ["split", a, b, w] => match a.toInt?, b.toInt?, parseF? w with
       | some n0, some n1, some w =>
         if !okRange [n0, n1] then (st, "bad-op") else
+        if !st.m.ids.validSlot n0 || !st.m.ids.validSlot n1 then (st, "invalid-end") else
         let b := trialBegin st.m
         if b.1 ≠ .ok then ({ st with m := b.2.2 }, b.1.name) else
         let new := b.2.1
@@ -99,7 +100,7 @@ def step (st : St) (line : String) : St × String :=
         let st2 := i.2
         let s := splitEdge st2.m.g n0 n1 new
         if s.1 = .increase_limit then
-          let wd := trialWithdraw st2.m new
+          let wd := trialWithdraw { st2.m with g := s.2 } new
           ({ st2 with m := wd.2 }, "increase_limit")
         else if s.1 ≠ .ok then ({ st2 with m := { st2.m with g := s.2 } }, s.1.name)
         else ({ st2 with m := { st2.m with g := s.2 } }, s!"ok {new} {g}")
@@ -107,6 +108,7 @@ def step (st : St) (line : String) : St × String :=
   | ["trial_reject", a, b, w] => match a.toInt?, b.toInt?, parseF? w with
       | some n0, some n1, some w =>
         if !okRange [n0, n1] then (st, "bad-op") else
+        if !st.m.ids.validSlot n0 || !st.m.ids.validSlot n1 then (st, "invalid-end") else
         let b := trialBegin st.m
         if b.1 ≠ .ok then ({ st with m := b.2.2 }, b.1.name) else
         let new := b.2.1
@@ -127,6 +129,9 @@ def step (st : St) (line : String) : St × String :=
         let f := sameFaceid st.m.g n0 n1
         if f.1 ≠ .ok then (st, f.1.name) else
         if !f.2 then (st, "not-allowed") else
+        let mf := swapManifold st.m.g n0 n1
+        if mf.1 ≠ .ok then (st, mf.1.name) else
+        if !mf.2 then (st, "not-manifold") else
         let p := swapNode23 st.m.g.tri n0 n1
         if p.1 ≠ .ok then (st, p.1.name) else
         if p.2.1 = p.2.2 then (st, "degenerate") else
